@@ -17,6 +17,8 @@ pub const HEADER: &str = "From LV Require Import Base.Prelude Model.GeomBuilder 
 enum Job {
     Fill(Entry, PathSpec),
     Stroke(Entry, PathSpec, LineJoin, LineCap),
+    /// the width read from attribute 0 (StrokeOptions::variable_line_width): the other loop of the stroke tessellator
+    StrokeVar(Entry, PathSpec, LineJoin, LineCap),
     FillShape(Shape),
     StrokeShape(Shape),
     /// invalid tolerance (0, negative, NaN): an error return, never a panic, buffers untouched
@@ -64,6 +66,10 @@ where
         Job::Fill(e, spec) => run_fill(*e, &mut FillTessellator::new(), spec, &FillOptions::tolerance(0.05), rec),
         Job::Stroke(e, spec, j, c) => {
             let o = StrokeOptions::tolerance(0.05).with_line_width(1.5).with_line_join(*j).with_line_cap(*c);
+            run_stroke(*e, &mut StrokeTessellator::new(), spec, &o, rec)
+        }
+        Job::StrokeVar(e, spec, j, c) => {
+            let o = StrokeOptions::tolerance(0.05).with_line_width(1.5).with_line_join(*j).with_line_cap(*c).with_variable_line_width(0);
             run_stroke(*e, &mut StrokeTessellator::new(), spec, &o, rec)
         }
         Job::FillShape(s) => run_fill_shape(&mut FillTessellator::new(), s, &FillOptions::tolerance(0.05), rec),
@@ -128,6 +134,10 @@ fn exec_stroke_dyn(job: &Job, sb: &mut dyn lyon_tessellation::StrokeGeometryBuil
             let o = StrokeOptions::tolerance(0.05).with_line_width(1.5).with_line_join(*j).with_line_cap(*c);
             run_stroke(*e, &mut StrokeTessellator::new(), spec, &o, sb)
         }
+        Job::StrokeVar(e, spec, j, c) => {
+            let o = StrokeOptions::tolerance(0.05).with_line_width(1.5).with_line_join(*j).with_line_cap(*c).with_variable_line_width(0);
+            run_stroke(*e, &mut StrokeTessellator::new(), spec, &o, sb)
+        }
         Job::StrokeShape(s) => run_stroke_shape(&mut StrokeTessellator::new(), s, &StrokeOptions::tolerance(0.05).with_line_width(1.0), sb),
         _ => Ok(()),
     }
@@ -137,7 +147,7 @@ fn exec_stroke_dyn(job: &Job, sb: &mut dyn lyon_tessellation::StrokeGeometryBuil
 /// buffers (u16 indices, pre-filled; refusal of the k-th vertex and natural overflow)
 fn inverted_winding_checks(job: &Job, st: &mut Stats, nv: usize) {
     use lyon_tessellation::geometry_builder::{BuffersBuilder, Positions};
-    let is_stroke = matches!(job, Job::Stroke(..) | Job::StrokeShape(_));
+    let is_stroke = matches!(job, Job::Stroke(..) | Job::StrokeVar(..) | Job::StrokeShape(_));
     let mut faults: Vec<(usize, Option<usize>)> = vec![(4, None)];
     for k in [0usize, 1, 2, 5, 11] {
         if k < nv {
@@ -181,7 +191,7 @@ fn inverted_winding_checks(job: &Job, st: &mut Stats, nv: usize) {
 /// changes (also on failure)
 fn vertex_offset_checks(job: &Job, st: &mut Stats, nv: usize) {
     use lyon_tessellation::geometry_builder::{BuffersBuilder, Positions};
-    let is_stroke = matches!(job, Job::Stroke(..) | Job::StrokeShape(_));
+    let is_stroke = matches!(job, Job::Stroke(..) | Job::StrokeVar(..) | Job::StrokeShape(_));
     let run = |offset: u32, fail_at: Option<usize>| -> Option<(bool, usize, Vec<u32>)> {
         let mut buffers: VertexBuffers<Point, u32> = VertexBuffers::new();
         buffers.vertices = vec![point(-1.0, -1.0); 4];
@@ -253,7 +263,7 @@ fn vertex_offset_checks(job: &Job, st: &mut Stats, nv: usize) {
 fn builder_reuse_checks(jobs: &[Job], st: &mut Stats) {
     use lyon_tessellation::geometry_builder::{BuffersBuilder, Positions};
     let fills: Vec<&Job> = jobs.iter().filter(|j| matches!(j, Job::Fill(..) | Job::FillShape(_))).collect();
-    let strokes: Vec<&Job> = jobs.iter().filter(|j| matches!(j, Job::Stroke(..) | Job::StrokeShape(_))).collect();
+    let strokes: Vec<&Job> = jobs.iter().filter(|j| matches!(j, Job::Stroke(..) | Job::StrokeVar(..) | Job::StrokeShape(_))).collect();
     for (k, first) in fills.iter().enumerate().take(24) {
         let second = strokes[k % strokes.len()];
         let third = fills[(k * 7 + 3) % fills.len()];
@@ -385,6 +395,27 @@ fn jobs(args: &Args, rng: &mut Rng) -> Vec<Job> {
             let joins = [LineJoin::Miter, LineJoin::Round, LineJoin::Bevel, LineJoin::MiterClip];
             let caps = [LineCap::Butt, LineCap::Round, LineCap::Square];
             v.push(Job::Stroke(*e, spec.clone(), joins[k % 4], caps[k % 3]));
+        }
+    }
+    // variable line width (attribute 0; widths change slowly against the edge lengths): paths with custom attributes
+    // through the entry points that carry them
+    {
+        use crate::tess::{Seg, Sub};
+        let p = |x: f32, y: f32| lyon_path::math::point(x, y);
+        let vw = PathSpec {
+            n_attr: 1,
+            subs: vec![
+                Sub { start: p(0.0, 0.0), start_attrs: vec![1.0], segs: vec![Seg::Line(p(10.0, 0.0), vec![1.5]), Seg::Line(p(10.0, 10.0), vec![1.0]), Seg::Line(p(0.0, 10.0), vec![2.0])], close: true },
+                Sub { start: p(20.0, 0.0), start_attrs: vec![2.0], segs: vec![Seg::Quad(p(30.0, 0.0), p(30.0, 10.0), vec![1.0]), Seg::Cubic(p(30.0, 20.0), p(20.0, 20.0), p(20.0, 30.0), vec![1.5])], close: false },
+            ],
+        };
+        let joins = [LineJoin::Miter, LineJoin::Round, LineJoin::Bevel, LineJoin::MiterClip];
+        let caps = [LineCap::Butt, LineCap::Round, LineCap::Square];
+        for (k, e) in FILL_ENTRIES.iter().enumerate() {
+            if matches!(e, Entry::Tessellate | Entry::Polygon) {
+                continue;
+            }
+            v.push(Job::StrokeVar(*e, vw.clone(), joins[k % 4], caps[k % 3]));
         }
     }
     for s in [
